@@ -188,6 +188,19 @@ func runGeomCase(c *GeomCase, w writer) {
 			e.s("]")
 		}
 		e.s("]")
+		// the polygon whose sides are the barriers of the spline fitter (layer-3 state as well)
+		e.s(`,"poly":[`)
+		for i, p := range geom.MergeRects(c.rects()).Points {
+			if i > 0 {
+				e.s(",")
+			}
+			e.s("[")
+			e.i(int(math.Round(p.X * float64(c.Den))))
+			e.s(",")
+			e.i(int(math.Round(p.Y * float64(c.Den))))
+			e.s("]")
+		}
+		e.s("]")
 		if c.Kind == "fit" {
 			// control points in fixed point: units of 1/(1000*Den)... logged in 1/1000 of the case's integer unit
 			e.s(`,"pieces":[`)
